@@ -216,6 +216,10 @@ func (t *Tree) Parse() error {
 	for {
 		n, err := t.parse()
 		if err != nil {
+			// Let the tokeniser goroutine run to completion instead of leaving it
+			// blocked on a send forever.
+			for range t.lex.tokens {
+			}
 			return t.enrichError(err)
 		}
 		if n == nil {
